@@ -21,11 +21,16 @@ def controls_facts():
     key = h.hexdigest()[:16]
     out = os.path.join(gen.WORK, "facts", "controls-" + key)
     if not os.path.exists(os.path.join(out, "DONE")):
-        shutil.rmtree(out, ignore_errors=True)
-        r = gen._run_driver(src, [], out, os.path.join(gen.WORK, "target", "controls"))
-        if r.returncode != 0:
-            raise ControlFailed("controls crate does not build: %s" % r.stderr[-600:])
-        open(os.path.join(out, "DONE"), "w").write(key)
+        import fcntl
+        os.makedirs(os.path.join(gen.WORK, "facts"), exist_ok=True)
+        with open(os.path.join(gen.WORK, "controls.lock"), "w") as lock:
+            fcntl.flock(lock, fcntl.LOCK_EX)      # concurrent checks: one of them builds the controls, the others wait for it
+            if not os.path.exists(os.path.join(out, "DONE")):
+                shutil.rmtree(out, ignore_errors=True)
+                r = gen._run_driver(src, [], out, os.path.join(gen.WORK, "target", "controls"))
+                if r.returncode != 0:
+                    raise ControlFailed("controls crate does not build: %s" % r.stderr[-600:])
+                open(os.path.join(out, "DONE"), "w").write(key)
     return F.Facts(out)
 
 
